@@ -98,6 +98,26 @@ theorem litMul_some {neg : Bool} {n : Nat} {k : IntTy} {ty : Ty} {other : Option
       · simp at h
     · simp at h
 
+theorem shape_aggEq {op : Src.BinOp} {ty : Ty} {ra : Option (VTy × List Bool × P × BEnv)}
+    {rb : BEnv → Option (VTy × List Bool × P × BEnv)} {benv : BEnv} {r : VTy × List Bool × P × BEnv}
+    (h : aggEq op ty ra rb = some r)
+    (ha : ∀ t x p e, ra = some (t, x, p, e) → shape e = shape benv)
+    (hb : ∀ e0 t x p e, rb e0 = some (t, x, p, e) → shape e = shape e0) : shape r.2.2.2 = shape benv := by
+  unfold aggEq at h
+  split at h
+  · split at h
+    · rename_i ta x p1 env1
+      split at h
+      · rename_i tb y p2 env2 hrb
+        split at h
+        · simp only [Option.some.injEq] at h
+          subst h
+          rw [hb _ _ _ _ _ hrb, ha _ _ _ _ rfl]
+        · simp at h
+      · simp at h
+    · simp at h
+  · simp at h
+
 /-- an unrolled loop keeps the variables it found, if every iteration only adds bindings in front -/
 theorem shape_foldLoop (f : List Bool → BEnv → Option (P × BEnv))
     (hf : ∀ el env pb envb, f el env = some (pb, envb) → ∃ pre, shape envb = pre ++ shape env) :
@@ -259,7 +279,7 @@ theorem shapeE (call : Ctx) : (e : Expr) → ∀ (benv : BEnv) (t : VTy) (bs : L
       · obtain ⟨_, _, y, p2, ho, _⟩ := litMul_some h
         exact shapeE call a _ _ _ _ _ ho
       · split at h
-        · simp at h
+        · exact shape_aggEq h (fun _ _ _ _ hh => shapeE call a _ _ _ _ _ hh) (fun _ _ _ _ _ hh => shapeE call b _ _ _ _ _ hh)
         · split at h
           · rename_i ta x p1 env1 ha
             split at h
@@ -278,7 +298,7 @@ theorem shapeE (call : Ctx) : (e : Expr) → ∀ (benv : BEnv) (t : VTy) (bs : L
       · rename_i heq; simp at heq
       · rename_i heq; simp at heq
       split at h
-      · simp at h
+      · exact shape_aggEq h (fun _ _ _ _ hh => shapeE call a _ _ _ _ _ hh) (fun _ _ _ _ _ hh => shapeE call b _ _ _ _ _ hh)
       · split at h
         · rename_i ta x p1 env1 ha
           split at h
@@ -335,8 +355,10 @@ theorem shapeE (call : Ctx) : (e : Expr) → ∀ (benv : BEnv) (t : VTy) (bs : L
     · rename_i te n abits pa env1 ha
       split at h
       · rename_i ibits pi env2 hi
-        simp only [Option.some.injEq, Prod.mk.injEq] at h; obtain ⟨_, _, _, rfl⟩ := h
-        rw [shapeE call i _ _ _ _ _ hi, shapeE call a _ _ _ _ _ ha]
+        split at h
+        · simp only [Option.some.injEq, Prod.mk.injEq] at h; obtain ⟨_, _, _, rfl⟩ := h
+          rw [shapeE call i _ _ _ _ _ hi, shapeE call a _ _ _ _ _ ha]
+        · simp at h
       · simp at h
     · simp at h
   | .range lo hi k, benv, t, bs, p, benv', h => by
@@ -615,9 +637,11 @@ theorem shapeU (call : Ctx) : (path : Path) → ∀ (benv : BEnv) (t : Ty) (cur 
     · split at h
       · rename_i ibits pi env1 hi
         split at h
-        · rename_i hu
-          simp only [Option.some.injEq, Prod.mk.injEq] at h; obtain ⟨_, _, rfl⟩ := h
-          rw [shapeU call rest _ _ _ _ _ _ _ _ hu, shapeE call ie _ _ _ _ _ hi]
+        · split at h
+          · rename_i hu
+            simp only [Option.some.injEq, Prod.mk.injEq] at h; obtain ⟨_, _, rfl⟩ := h
+            rw [shapeU call rest _ _ _ _ _ _ _ _ hu, shapeE call ie _ _ _ _ _ hi]
+          · simp at h
         · simp at h
       · simp at h
     · simp at h
